@@ -2454,8 +2454,25 @@ fn random_subpackets(ctx: &mut Ctx, key: &impl KeyDetails) -> (Vec<Subpacket>, V
             11 => SubpacketData::KeyServerPreferences(smallvec::smallvec![0x80]),
             12 => SubpacketData::PreferredHashAlgorithms(smallvec::smallvec![HashAlgorithm::Sha512, HashAlgorithm::Sha256]),
             13 => SubpacketData::Experimental(101 + (seed % 10) as u8, pattern(seed, seed % 40).into()),
-            14 => SubpacketData::KeyFlags(Default::default()),
-            _ => SubpacketData::Features(Default::default()),
+            14 => {
+                // key flags built through the setters, second-octet flags included
+                let mut f = pgp::packet::KeyFlags::default();
+                let bits: u8 = ctx.rng.gen();
+                f.set_certify(bits & 1 != 0);
+                f.set_sign(bits & 2 != 0);
+                f.set_encrypt_comms(bits & 4 != 0);
+                f.set_authentication(bits & 8 != 0);
+                f.set_adsk(bits & 16 != 0);
+                f.set_timestamping(bits & 32 != 0);
+                SubpacketData::KeyFlags(f)
+            }
+            _ => {
+                let mut f = pgp::packet::Features::default();
+                let bits: u8 = ctx.rng.gen();
+                f.set_seipd_v1(bits & 1 != 0);
+                f.set_seipd_v2(bits & 2 != 0);
+                SubpacketData::Features(f)
+            }
         };
         let sp = if ctx.rng.gen_range(0..5) == 0 && !matches!(data, SubpacketData::Experimental(..)) {
             Subpacket::critical(data)
